@@ -5,6 +5,7 @@
 package main
 
 import (
+	"encoding/json"
 	"fmt"
 	"io/ioutil"
 	"net"
@@ -495,6 +496,9 @@ func main() {
 			}
 		}
 		ap := apis[ae]
+		if b, err := json.Marshal(c); err == nil { // journal: if the code under test kills this process, this case is the failing input
+			os.WriteFile(a.Out+"/current.json", b, 0o644)
+		}
 		ap.reset()
 		atomic.StoreInt64(&clock, c.T0)
 		c.Outs = nil
@@ -569,6 +573,7 @@ func main() {
 		res.Cases = append(res.Cases, c)
 	}
 	res.Evaluations = len(cases)
+	os.Remove(a.Out + "/current.json")
 	if _, err := lib.WriteShards(a.Out, "From Relay Require Import Base.Prelude Model.DenyStore Corr.C10.", "case", coq, res.ShardSize); err != nil {
 		fmt.Fprintln(os.Stderr, err)
 		os.Exit(2)
